@@ -670,12 +670,13 @@ func rule068(r *core.Run) {
 		n++
 		released := false
 		core.Instrs(fn, func(in ssa.Instruction) {
-			op := a.Op(in)
-			if op == nil || op.Acquire || op.Deferred || op.Class != "gofakes3.uploader.mu" {
-				return
-			}
-			if core.Reaches(get, in) && core.Reaches(in, rem) {
-				released = true
+			for _, op := range a.OpsAt(in) {
+				if op.Acquire || op.Deferred || op.Class != "gofakes3.uploader.mu" {
+					continue
+				}
+				if core.Reaches(get, in) && core.Reaches(in, rem) {
+					released = true
+				}
 			}
 		})
 		heldAtRemove := a.MustAt(rem).Get("gofakes3.uploader.mu") != lockset.None && a.MustAt(get).Get("gofakes3.uploader.mu") != lockset.None
